@@ -18,7 +18,7 @@ using namespace sim;
 
 extern "C" volatile uint32_t sim_block_once_calls, sim_block_guard_calls, sim_block_mutex_calls, sim_block_waits,
     sim_block_futex_waits, sim_block_futex_wakes, sim_block_futex_lost, sim_block_cond_waits, sim_block_cond_signals,
-    sim_block_cond_lost;  // blockwrap.cpp
+    sim_block_cond_lost, sim_clock_reads;  // blockwrap.cpp
 
 static const uint32_t kUnlimited = 0xFFFFFFFFu;
 static const uint64_t kSpinJump = 1000000000ull;  // == kTablesSpinLimit
@@ -395,7 +395,7 @@ static Plan generate(uint64_t seed, uint64_t run, const std::map<std::string, st
               op.args[0] = std::string("https://") + pickl(r, {":sub.example.com", "*.example.com", "example.com", "(.*)"}) +
                            pickl(r, {"/:id", "/books/:id(\\d+)", "/*", "/a/:b?", ""});
               op.args[9] = std::string("https://") + pickl(r, {"www.example.com", "example.com", "x.example.com"}) + pickl(r, {"/42", "/books/7", "/a", "/"});
-              op.sub = uint8_t((0 << 1) | (1 << 2));
+              op.sub = uint8_t((r.chance(1, 3) ? 1 : 0) | (0 << 1) | (1 << 2));  // ignoreCase one time in three
             } else {
               op.kind = OP_CAPI;
               op.sub = uint8_t(r.below(3));
@@ -424,6 +424,12 @@ static Plan generate(uint64_t seed, uint64_t run, const std::map<std::string, st
       }
     }
     if (fault == "ta") p.faults.push_back("ta");
+    if (fault == "stall" && r.chance(1, 2)) {
+      // the waiter "spins for a while" in spin-clock terms as well: any number of iterations BELOW the cap must still end
+      // in the right answer (exact oracle) - a bound that is lower than the documented one shows here
+      static const uint32_t ks[] = {4096, 65536, 131072, 1000000, 50000000, 500000000};
+      p.faults.push_back("spin " + std::to_string(r.below(n)) + " " + std::to_string(r.below(3)) + " " + std::to_string(pick(r, ks)));
+    }
     if (fault == "starve") {
       int k = r.range(1, 2);
       for (int i = 0; i < k; i++)
@@ -478,14 +484,36 @@ static Plan generate(uint64_t seed, uint64_t run, const std::map<std::string, st
         }
     }
     std::vector<uint32_t> vv(vals.begin(), vals.end());
-    int k = r.range(2, 6);
-    for (int i = 0; i < k; i++) {
-      Op op;
-      op.kind = OP_LIMIT;
-      op.args = {OptStr(std::to_string(vv[r.below(uint32_t(vv.size()))]))};
-      p.ops.emplace_back(w, op);
+    // one administrator, or (one run in three, if the thread budget allows) two that set the limit concurrently
+    const int admins = (w + 2 <= maxthreads && r.chance(1, 3)) ? 2 : 1;
+    p.set("admins", uint64_t(admins));
+    for (int a = 0; a < admins; a++) {
+      int k = admins == 2 ? r.range(1, 2) : r.range(2, 6);
+      for (int i = 0; i < k; i++) {
+        Op op;
+        op.kind = OP_LIMIT;
+        uint32_t v = vv[r.below(uint32_t(vv.size()))];
+        if (admins == 2 && r.chance(2, 3)) {
+          // two concurrent setters: one generous, one tight, so that a state mixed from both calls (a derived value
+          // from one, the limit from the other) is visible to the probes
+          static const uint32_t big[] = {kUnlimited, 1000000, 4096, 1000};
+          static const uint32_t tight[] = {0, 1, 10, 20, 30};
+          v = a == 0 ? pick(r, big) : pick(r, tight);
+        }
+        op.args = {OptStr(std::to_string(v))};
+        p.ops.emplace_back(w + a, op);
+      }
+      p.set("ut" + std::to_string(w + a), 1);
     }
-    p.set("ut" + std::to_string(w), 1);
+    if (admins == 2) {
+      // probes that run late: whatever the two administrators left behind must be ONE limit value, i.e. can_parse and
+      // parse of the same input must agree with each other under it (checked jointly over the quiescent tail)
+      for (int i = 0; i < 2; i++) {
+        std::string in = "https://example.com/" + gen_label(r, r.range(1, 60)) + (r.chance(1, 2) ? "?q=1" : "");
+        p.ops.emplace_back(0, make_canparse(in, std::nullopt));
+        p.ops.emplace_back(0, make_parse(in, std::nullopt));
+      }
+    }
   }
   return p;
 }
@@ -683,14 +711,14 @@ static Result execute(const Plan& p, Stats& st) {
   st.add("sim_spin_iterations", spin_adv);
   st.add("witness_runs", g_witness_runs.exchange(0));
   {  // blocking primitives met by simulated threads (zero on the pinned tree: ada uses none)
-    static uint32_t last[10] = {0, 0, 0, 0, 0, 0, 0, 0, 0, 0};
-    uint32_t now[10] = {sim_block_once_calls, sim_block_guard_calls, sim_block_mutex_calls, sim_block_waits,
+    static uint32_t last[11] = {0, 0, 0, 0, 0, 0, 0, 0, 0, 0, 0};
+    uint32_t now[11] = {sim_block_once_calls, sim_block_guard_calls, sim_block_mutex_calls, sim_block_waits,
                         sim_block_futex_waits, sim_block_futex_wakes, sim_block_futex_lost,
-                        sim_block_cond_waits, sim_block_cond_signals, sim_block_cond_lost};
-    static const char* const nm[10] = {"block.once_calls", "block.static_guard_calls", "block.mutex_lock_calls", "block.waits_turned_into_yields",
+                        sim_block_cond_waits, sim_block_cond_signals, sim_block_cond_lost, sim_clock_reads};
+    static const char* const nm[11] = {"block.once_calls", "block.static_guard_calls", "block.mutex_lock_calls", "block.waits_turned_into_yields",
                                        "block.futex_waits", "block.futex_wakes", "block.futex_lost_wakeups",
-                                       "block.cond_waits", "block.cond_signals", "block.cond_lost_signals"};
-    for (int i = 0; i < 10; i++) {
+                                       "block.cond_waits", "block.cond_signals", "block.cond_lost_signals", "clock.simulated_reads"};
+    for (int i = 0; i < 11; i++) {
       if (now[i] != last[i]) st.add(nm[i], now[i] - last[i]);
       last[i] = now[i];
     }
@@ -718,6 +746,10 @@ static Result execute(const Plan& p, Stats& st) {
     return res;
   }
   if (!mode_b) {
+    // Two passes: first look for a wrong result that is NOT the listed starvation finding (a thread whose own spin loop
+    // timed out after an injected spin-clock jump), so that the known finding of one thread cannot hide a different
+    // violation in another thread of the same run; only then report the starvation itself.
+    for (int pass = 0; pass < 2; pass++)
     for (int t = 0; t < n; t++) {
       for (size_t i = 0; i < recs[t].steps.size() && i < tops[t].size(); i++) {
         const StepRec& sr = recs[t].steps[i];
@@ -725,8 +757,10 @@ static Result execute(const Plan& p, Stats& st) {
         if (sr.obs.text == want) continue;
         bool later_timeout = false;
         for (size_t j = 0; j <= i; j++) later_timeout |= recs[t].steps[j].timed_out;
+        const bool starved = later_timeout && recs[t].spin_advanced >= kSpinJump;  // an injected jump of at least the cap
+        if (pass == 0 && starved) break;  // this thread's results are explained by F3
         res.violation = true;
-        if (later_timeout && recs[t].spin_fired > 0) {
+        if (starved) {
           // the waiter really was starved for >= 1e9 iterations (injected spin-clock jump): known finding F3
           res.vclass = "starvation-timeout";
           res.sig = std::string("spin-cap:") + kOpKindName[tops[t][i].kind];
@@ -774,14 +808,17 @@ static Result execute(const Plan& p, Stats& st) {
     return res;
   }
   // ---- mode b: every worker call behaves as under one of the limit values ----------
-  const int admin = n - 1;
+  const int nadmins = std::max(1, std::min(int(p.cfg_u("admins", 1)), n - 1));
+  const int admin = n - nadmins;  // threads admin .. n-1 only set the limit
   struct Store { uint32_t inv, ret, v; };
   std::vector<Store> stores;
-  for (size_t i = 0; i < recs[admin].steps.size() && i < tops[admin].size(); i++) {
-    const Op& op = tops[admin][i];
-    uint32_t v = op.args.size() && op.args[0] ? uint32_t(strtoul(op.args[0]->c_str(), nullptr, 10)) : kUnlimited;
-    stores.push_back({recs[admin].steps[i].inv, recs[admin].steps[i].ret, v});
-  }
+  for (int a = admin; a < n; a++)
+    for (size_t i = 0; i < recs[a].steps.size() && i < tops[a].size(); i++) {
+      const Op& op = tops[a][i];
+      uint32_t v = op.args.size() && op.args[0] ? uint32_t(strtoul(op.args[0]->c_str(), nullptr, 10)) : kUnlimited;
+      stores.push_back({recs[a].steps[i].inv, recs[a].steps[i].ret, v});
+    }
+  std::sort(stores.begin(), stores.end(), [](const Store& x, const Store& y) { return x.ret < y.ret; });
   uint64_t checked = 0, multi = 0;
   for (int t = 0; t < admin; t++) {
     for (size_t i = 0; i < recs[t].steps.size() && i < tops[t].size(); i++) {
@@ -789,11 +826,17 @@ static Result execute(const Plan& p, Stats& st) {
       const Op& op = tops[t][i];
       std::vector<uint32_t> cand;
       uint32_t cur = kUnlimited;
+      const Store* last_done = nullptr;
       for (auto& s : stores) {
-        if (s.ret < sr.inv) cur = s.v;                       // completed before the call started
-        else if (s.inv <= sr.ret) cand.push_back(s.v);       // overlaps the call
+        if (s.ret < sr.inv) {                                 // completed before the call started
+          cur = s.v;
+          last_done = &s;
+        } else if (s.inv <= sr.ret) cand.push_back(s.v);      // overlaps the call
       }
       cand.push_back(cur);
+      if (last_done)                                          // two administrators: stores that overlapped the last completed one
+        for (auto& s : stores)
+          if (&s != last_done && s.ret < sr.inv && s.ret >= last_done->inv) cand.push_back(s.v);
       std::sort(cand.begin(), cand.end());
       cand.erase(std::unique(cand.begin(), cand.end()), cand.end());
       if (cand.size() > 1) multi++;
@@ -817,6 +860,53 @@ static Result execute(const Plan& p, Stats& st) {
         res.sig = std::string(kOpKindName[op.kind]) + (op.kind == OP_SET ? std::string(":") + kSetterName[op.sub % S_COUNT] : std::string());
         res.detail = "thread " + std::to_string(t) + " step " + std::to_string(i) + " " + op.pretty() + " observed {" +
                      pretty_snap(sr.obs.text).substr(0, 300) + "} which matches no constant limit among the values current during the call:" + tried;
+        g_snapshot_origin = true;
+        return res;
+      }
+    }
+  }
+  // Quiescent tail: operations that started after the last limit store had returned all ran under whatever value the
+  // administrators left behind - ONE value. Each of them was accepted above if it matched some candidate; here a single
+  // candidate has to explain all of them together (two concurrent setters must not leave a mixed state behind).
+  {
+    uint32_t last_ret = 0;
+    for (auto& s : stores) last_ret = std::max(last_ret, s.ret);
+    struct Tail { int t; size_t i; };
+    std::vector<Tail> tail;
+    for (int t = 0; t < admin; t++)
+      for (size_t i = 0; i < recs[t].steps.size() && i < tops[t].size(); i++)
+        if (!stores.empty() && recs[t].steps[i].inv > last_ret && tops[t][i].kind != OP_LIMIT) tail.push_back({t, i});
+    if (tail.size() >= 2) {
+      std::vector<uint32_t> cand;
+      for (auto& s : stores) cand.push_back(s.v);
+      std::sort(cand.begin(), cand.end());
+      cand.erase(std::unique(cand.begin(), cand.end()), cand.end());
+      bool explained = false;
+      for (uint32_t v : cand) {
+        bool all = true;
+        for (auto& x : tail) {
+          const StepRec& sr = recs[x.t].steps[x.i];
+          const Op& op = tops[x.t][x.i];
+          std::string o = ut[x.t] == 0 ? replay_step<ada::url>(op, sr, v, v) : replay_step<ada::url_aggregator>(op, sr, v, v);
+          if (o != sr.obs.text) {
+            all = false;
+            break;
+          }
+        }
+        if (all) {
+          explained = true;
+          break;
+        }
+      }
+      ada::set_max_input_length(kUnlimited);
+      st.add("limit_quiescent_tails_checked");
+      if (!explained) {
+        res.violation = true;
+        res.vclass = "limit-torn";
+        res.sig = "mixed-state-after-concurrent-setters";
+        res.detail = "after every set_max_input_length call had returned, " + std::to_string(tail.size()) +
+                     " later operations (first: thread " + std::to_string(tail[0].t) + " " + tops[tail[0].t][tail[0].i].pretty().substr(0, 120) +
+                     ") cannot all be explained by ONE of the values that were set";
         g_snapshot_origin = true;
         return res;
       }
